@@ -2,13 +2,14 @@ from store_common import *
 
 META = {
     "category": "proof",
-    "text": 'Coq proves, for EVERY history of updates, removals and reindexes (Base/StoreSM.v driver over the LuaModuleIndex refinement shared with C33), that clearing gives the observations and sizes of a new index (clear_is_init; the id counter that survives clear() is shown unobservable) and that a reindex is observationally a fresh analysis of the files in the Vfs loaded in file-id order (reindex_eq_fresh); for the LuaPropertyIndex, LuaGlobalIndex and DiagnosticIndex transcriptions clear() is literally the initial state, so reindex IS the fresh analysis. Table obligations are regenerated from the source on every run (lib/index_fields.py -> coq/theories/Gen/C09_IndexFields.v) and re-proved: every field of DbIndex that implements LuaIndex is cleared by DbIndex::clear and removed-from by DbIndex::remove; every fact container of every index struct is reset by its clear() and touched by its remove() — a new index field that clear/remove forgets breaks an obligation. The real indexes are driven directly (clear must equal a new index: kernel oracle) and the whole analysis is searched end-to-end (reindex after any history INCLUDING configuration changes — moduleMap set / changed / removed, strict require path, require patterns, extensions — vs a fresh EmmyLuaAnalysis under the final configuration: full observable dump and H2 sizes); the module-index correspondence has the configuration change as an op.',
-    "note": 'Modelled and proved: LuaModuleIndex (refinement), LuaPropertyIndex / LuaGlobalIndex / DiagnosticIndex (state equality). LuaTypeIndex and LuaMemberIndex: kernel oracle on the real structs + table obligations. All other indexes: table obligations + end-to-end search. Known open finding: JsonSchemaIndex (keyed by URL) has TODO stubs for clear()/remove(), recorded as the one exception of the table theorems (index_containers_known_refuted keeps the exception list tight). Axioms: none.',
+    "text": 'Coq proves, for EVERY history of updates, removals and reindexes (Base/StoreSM.v driver over the LuaModuleIndex refinement shared with C33), that clearing gives the observations and sizes of a new index (clear_is_init; the id counter that survives clear() is shown unobservable) and that a reindex is observationally a fresh analysis of the files in the Vfs loaded in file-id order (reindex_eq_fresh); for the LuaPropertyIndex, LuaGlobalIndex and DiagnosticIndex transcriptions clear() is literally the initial state, so reindex IS the fresh analysis; the PRODUCT store LuaModuleIndex x LuaGlobalIndex x DiagnosticIndex (DbIndex::clear / remove / update acting on every modelled index) satisfies product_clear_is_init and product_reindex_eq_fresh for every history. Table obligations are regenerated from the source on every run (lib/index_fields.py -> coq/theories/Gen/C09_IndexFields.v) and re-proved: every field of DbIndex that implements LuaIndex is cleared by DbIndex::clear and removed-from by DbIndex::remove; every fact container of every index struct is reset by its clear() and touched by its remove() — a new index field that clear/remove forgets breaks an obligation. The real indexes are driven directly (clear must equal a new index: kernel oracle) and the whole analysis is searched end-to-end (reindex after any history INCLUDING configuration changes — moduleMap set / changed / removed, strict require path, require patterns, extensions — vs a fresh EmmyLuaAnalysis under the final configuration: full observable dump and H2 sizes); the module-index correspondence has the configuration change as an op.',
+    "note": 'Modelled and proved: LuaModuleIndex, LuaGlobalIndex, DiagnosticIndex (StoreSM refinements) and their product; LuaPropertyIndex (state equality). LuaTypeIndex (per-file part) and LuaMemberIndex: transcribed and tied by correspondence, clear() = initial state, plus the kernel oracle on the real structs and the table obligations. All other indexes: table obligations + end-to-end search. Known open finding: JsonSchemaIndex (keyed by URL) has TODO stubs for clear()/remove(), recorded as the one exception of the table theorems (index_containers_known_refuted keeps the exception list tight). Axioms: none.',
     "technique": "Coq refinement proof over all histories + table obligations regenerated from source and re-proved by computation + model-independent oracle on the real index structs + end-to-end differential search (reindex vs fresh analysis)",
 }
 
 THEOREMS = [("clear_is_init", "theorem"), ("reindex_eq_fresh", "theorem"), ("property_reindex_eq_fresh", "theorem"),
             ("global_reindex_eq_fresh", "theorem"), ("diagnostic_reindex_eq_fresh", "theorem"),
+            ("product_clear_is_init", "theorem"), ("product_reindex_eq_fresh", "theorem"),
             ("dbindex_fields_all_cleared_and_removed", "table"), ("index_containers_reset_by_clear_outside_known", "table"),
             ("index_containers_touched_by_remove_outside_known", "table"), ("index_containers_known_refuted", "refutation"),
             ("reindex_example", "example")]
